@@ -8,18 +8,6 @@ import LinkVerif.Model.TrieProof
 
 namespace Model.Trie
 
-inductive Dec (α : Type) where
-  | ok (a : α)
-  | err
-  | panic
-
-instance : Monad Dec where
-  pure := .ok
-  bind x f := match x with
-    | .ok a => f a
-    | .err => .err
-    | .panic => .panic
-
 inductive Kind where
   | byte | string | list
 deriving DecidableEq
@@ -88,8 +76,43 @@ def compactToHex (compact : Bytes) : Dec (List Nib) :=
     let chop := 2 - b0.val % 2
     if chop > base.length then .panic else .ok (base.drop chop)
 
-mutual
-/-- node.go decodeNode (fuel bounds the nesting depth; every level consumes a list header) -/
+/-- node.go decodeRef, with the recursive call `decodeNode(nil, buf, cachegen)` on an embedded node as a parameter -/
+def decodeRefWith (rec : Bytes → Dec CNode) (buf : Bytes) : Dec (CNode × Bytes) := do
+  let (kind, val, rest) ← rsplit buf
+  if kind == .list then
+    if buf.length - rest.length > 32 then .err
+    else do
+      let n ← rec buf
+      pure (n, rest)
+  else if val.length == 0 then pure (.nil, rest)
+  else if val.length == 32 then pure (.hash val, rest)
+  else .err
+
+/-- the loop `for i := 0; i < 16; i++ { decodeRef }` of decodeFull -/
+def decodeRefsWith (rec : Bytes → Dec CNode) : Nat → Bytes → Dec (List CNode × Bytes)
+  | 0, b => pure ([], b)
+  | n + 1, b => do
+    let (c, rest) ← decodeRefWith rec b
+    let (cs, rest') ← decodeRefsWith rec n rest
+    pure (c :: cs, rest')
+
+def decodeShortWith (rec : Bytes → Dec CNode) (elems : Bytes) : Dec CNode := do
+  let (kbuf, rest) ← splitString elems
+  let key ← compactToHex kbuf
+  if hasTerm key then do
+    let (val, _) ← splitString rest
+    pure (.short key (.value val))
+  else do
+    let (r, _) ← decodeRefWith rec rest
+    pure (.short key r)
+
+def decodeFullWith (rec : Bytes → Dec CNode) (elems : Bytes) : Dec CNode := do
+  let (cs, rest) ← decodeRefsWith rec 16 elems
+  let (val, _) ← splitString rest
+  let last : CNode := if val.isEmpty then .nil else .value val
+  pure (.full (fun i => (cs ++ [last]).getD i.val .nil))
+
+/-- node.go decodeNode (fuel bounds the nesting depth of embedded nodes; every level consumes a list header) -/
 def decodeNode : Nat → Bytes → Dec CNode
   | 0, _ => .err
   | f + 1, buf =>
@@ -97,67 +120,15 @@ def decodeNode : Nat → Bytes → Dec CNode
     else do
       let (elems, _) ← splitList buf
       let c := match countValues elems with | .ok c => c | _ => 0
-      if c == 2 then decodeShort f elems
-      else if c == 17 then decodeFull f elems
+      if c == 2 then decodeShortWith (decodeNode f) elems
+      else if c == 17 then decodeFullWith (decodeNode f) elems
       else .err
 
-def decodeShort : Nat → Bytes → Dec CNode
-  | f, elems => do
-    let (kbuf, rest) ← splitString elems
-    let key ← compactToHex kbuf
-    if hasTerm key then do
-      let (val, _) ← splitString rest
-      pure (.short key (.value val))
-    else do
-      let (r, _) ← decodeRef f rest
-      pure (.short key r)
-
-def decodeFull : Nat → Bytes → Dec CNode
-  | f, elems => do
-    let rec go (n : Nat) (b : Bytes) (acc : List CNode) : Dec (List CNode × Bytes) :=
-      match n with
-      | 0 => pure (acc.reverse, b)
-      | n + 1 => do
-        let (c, rest) ← decodeRef f b
-        go n rest (c :: acc)
-    let (cs, rest) ← go 16 elems []
-    let (val, _) ← splitString rest
-    let last : CNode := if val.isEmpty then .nil else .value val
-    let arr := (cs ++ [last]).toArray
-    pure (.full (fun i => arr[i.val]!))
-
-/-- node.go decodeRef -/
-def decodeRef : Nat → Bytes → Dec (CNode × Bytes)
-  | f, buf => do
-    let (kind, val, rest) ← rsplit buf
-    if kind == .list then
-      if buf.length - rest.length > 32 then .err
-      else
-        match f with
-        | 0 => .err
-        | f' + 1 => do
-          let n ← decodeNode f' buf
-          pure (n, rest)
-    else if val.length == 0 then pure (.nil, rest)
-    else if val.length == 32 then pure (.hash val, rest)
-    else .err
-end
+/-- the decoder `VerifyProof` runs on a proof node (fuel = length + 1 is more than the nesting depth) -/
+def decodeExec (buf : Bytes) : Dec CNode := decodeNode (buf.length + 1) buf
 
 /-- VerifyProof with the executable decoder; a decoder panic is the verifier's panic -/
-def verifyExec (H : Bytes → Bytes) (db : Bytes → Option Bytes) : Nat → Bytes → List Nib → VRes
-  | 0, _, _ => .fuel
-  | f + 1, want, key =>
-    match db want with
-    | none => .error
-    | some buf =>
-      match decodeNode (buf.length + 1) buf with
-      | .err => .error
-      | .panic => .panic
-      | .ok n =>
-        match cget n key with
-        | .found v => .value v
-        | .absent => .absent
-        | .goto h rest => verifyExec H db f h rest
-        | .panic => .panic
+def verifyExec (H : Bytes → Bytes) (db : Bytes → Option Bytes) : Nat → Bytes → List Nib → VRes :=
+  verify H decodeExec db
 
 end Model.Trie
